@@ -202,9 +202,9 @@ impl RtpsStatefulWriter {
                         core::iter::once(nackfrag_submessage.fragment_number_state().base())
                             .chain(nackfrag_submessage.fragment_number_state().set())
                     {
+                        // Fragment numbers in the NACK_FRAG start at 1 as in the DATA_FRAG submessage
                         let request_fragment_number = request_fragment_number as usize;
-                        // Either send a DATAFRAG submessages or send a single DATA submessage
-                        if (request_fragment_number) < number_of_fragments
+                        if (1..=number_of_fragments).contains(&request_fragment_number)
                             && cache_change.kind == ChangeKind::Alive
                         {
                             let writer_id = self.guid.entity_id();
@@ -213,7 +213,7 @@ impl RtpsStatefulWriter {
                                 reader_id,
                                 writer_id,
                                 self.data_max_size_serialized,
-                                request_fragment_number,
+                                request_fragment_number - 1,
                             );
 
                             let info_dst = InfoDestinationSubmessage::new(
